@@ -468,6 +468,16 @@ def next_model(crate, kinds):
             elif kind == 'take_while':
                 # (the real adaptor also remembers that it is finished; a consumer stops at the first None anyway)
                 fn.blocks[mid]['term'] = ['switch', ['move', P(Cc, 'bool')], [[0, NONE]], nxt, 'bool', 0, True]
+        elif kind == 'filter_map':
+            Y = B.local('std::option::Option<?>', None)
+            D3 = B.local('isize', None)
+            mid = B.block()
+            Z = B.local('?', '#x')
+            fn.blocks[cur]['term'] = B.closure_call(itop, [['move', P(X, '?')]], P(Y, 'std::option::Option<?>'), mid, from_iter=k)
+            fn.blocks[mid]['stmts'] = [B.assign(P(D3, 'isize'), ['discr', P(Y, 'std::option::Option<?>')])]
+            fn.blocks[mid]['term'] = ['switch', ['move', P(D3, 'isize')], [[0, H], [1, nxt]], UN, 'isize', 0, True]
+            fn.blocks[nxt]['stmts'] = [B.assign(P(Z, '?'), ['use', ['move', P(Y, '?', [['downcast', 'Some', 1], ['field', 0, '0', 'std::option::Option', '?']])]])]
+            X = Z
         else:
             raise ValueError(kind)
         cur = nxt
